@@ -439,6 +439,7 @@ def run(eng, rep):
                 "path, on a test that establishes an option from the frozen documented-random table or the growing phase (one checked exception, N1); inventory (T1) "
                 "of other nondeterminism/hidden state over all functions reachable from solve; flow-sensitive ownership lattice {caller, fresh} over solve (T11): "
                 "every in-place operation has a fresh receiver and no caller-owned mutable object is handed on.")
+    rep.explain("Also decided: the documented random options are off by default, the default of init.random_initial_directions being the exact negation of the coordinate initialiser's precondition (C19-1b); no mutable object is created in a class body (C19-2).")
     rep.not_decided += ["bit-identical repetition additionally assumes deterministic NumPy/SciPy kernels (trusted)"]
     rep.assumptions += ["astype() copies by default, slicing/.T/reshape/asarray are views, list()/dict() build new containers"]
     rule_rng_guarded(eng, rep)
